@@ -327,42 +327,125 @@ def _brief(case):
             "bad_order": case["bad_order"]}
 
 
-def _fielded(ctx):
-    """FieldedOrderedHashWriter/Reader (not used by any shipped codec): a fixed two-field smoke run."""
+def _fielded_case(case):
+    """Worker: one FieldedOrderedHashWriter file (fields written in the given order) read back through
+    every public read function of FieldedOrderedHashReader."""
     from whoosh.filedb import filetables as ft
     from whoosh.filedb.filestore import RamStorage
-    fields = {"a": [b"a", b"b", b"c", b"d", b"e"], "b": [b"a", b"x", b"y"]}
-    st = RamStorage()
-    w = ft.FieldedOrderedHashWriter(st.create_file("h"))
-    for fn in ("a", "b"):
-        w.start_field(fn)
-        for k in fields[fn]:
-            w.add(k, fn.encode() + k)
-        w.end_field()
-    w.close()
-    r = ft.FieldedOrderedHashReader.open(st, "h")
-    ctx.case(("fielded", "smoke"), nontrivial=True)
-    exp_terms = [(fn, k) for fn in ("a", "b") for k in fields[fn]]
-    for fn in fields:
-        for k in fields[fn] + [b"zz"]:
-            exp = (fn.encode() + k) if k in fields[fn] else None
-            if r.term_get(fn, k) != exp or r.contains_term(fn, k) != (exp is not None):
-                ctx.violation("FieldedOrderedHashReader.term_get/contains_term", [fn, k.hex()], exp, r.term_get(fn, k), "fielded lookup")
+    out = dict(case=case)
+
+    def attempt(fn):
+        try:
+            return fn()
+        except Exception as e:  # noqa
+            return "raises-" + type(e).__name__
     try:
-        got = list(r.iter_terms())
+        st = RamStorage()
+        w = ft.FieldedOrderedHashWriter(st.create_file("h"))
+        for fname, items in case["fields"]:
+            w.start_field(fname)
+            for k, v in items:
+                w.add(k, v)
+            w.end_field()
+        w.close()
+        r = ft.FieldedOrderedHashReader.open(st, "h")
+        out["codes"] = {fn: r.fieldmap[fn][3] for fn, _ in case["fields"]}
+        out["iter_terms"] = attempt(lambda: [(f, bytes(k)) for f, k in r.iter_terms()])
+        out["iter_term_items"] = attempt(lambda: [(f, bytes(k), bytes(v)) for f, k, v in r.iter_term_items()])
+        look = {}
+        for fname, k in case["probes"]:
+            look[(fname, k)] = {
+                "get": attempt(lambda: r.term_get(fname, k)),
+                "contains": attempt(lambda: r.contains_term(fname, k)),
+                "closest": attempt(lambda: r.closest_term(fname, k)),
+                "terms_from": attempt(lambda: [bytes(x) for x in r.terms_from(fname, k)]),
+                "items_from": attempt(lambda: [(bytes(a), bytes(b)) for a, b in r.term_items_from(fname, k)]),
+            }
+        out["look"] = look
+        r.close()
     except Exception as e:  # noqa
-        got = "raises-" + type(e).__name__
-    if got != exp_terms:
-        ctx.violation("FieldedOrderedHashReader.iter_terms:reads-index-array-as-records", "2 fields", len(exp_terms),
-                      got if isinstance(got, str) else len(got), "iteration runs into the per-field position arrays")
-    try:
-        got = [r.closest_term("a", k) for k in (b"", b"aa", b"c", b"f")]
-    except Exception as e:  # noqa
-        got = "raises-" + type(e).__name__
-    if got != [b"a", b"b", b"c", None]:
-        ctx.violation("FieldedOrderedHashReader.closest_term:wrong-index-stride", "field a", ["a", "b", "c", None],
-                      got if isinstance(got, str) else [None if x is None else x.hex() for x in got],
-                      "closest_term_pos multiplies by the number of entries instead of the item size")
+        import traceback
+        out["crash"] = "%s: %s" % (type(e).__name__, traceback.format_exc(limit=3))
+    return out
+
+
+def _fielded_gen(rng):
+    nf = rng.choice((1, 2, 2, 3, 4))
+    names = rng.sample(["a", "b", "body", "c", "title", "z"], nf)
+    if rng.random() < 0.7:
+        names.sort()             # the order a codec would write them in; the rest: any order
+    fields = []
+    for fname in names:
+        n = rng.choice((0, 1, 2, 3, 4, 5, 8, 20))
+        alpha = rng.choice([b"ab", b"abc", b"\x00\x01\xff"])
+        keys = sorted(set(bytes(rng.choice(alpha) for _ in range(rng.randrange(1, 4))) for _ in range(n)))
+        items = []
+        for k in keys:
+            vlen = rng.choice((0, 1, 3, 17, 100))
+            if rng.random() < 0.02:
+                vlen = 70000     # pushes the per-field positions past 65535: position array retyped H -> i
+            items.append((k, bytes(rng.randrange(256) for _ in range(min(vlen, 6))) + b"\x00" * max(0, vlen - 6)))
+        fields.append((fname, items))
+    probes = []
+    for fname, items in fields:
+        ks = [k for k, _ in items]
+        cand = ks[:6] + [b"", b"a", b"b\x00", b"\xff\xff"] + [k + b"\x00" for k in ks[:2]] + [k[:-1] for k in ks[:2]]
+        probes += [(fname, k) for k in dict.fromkeys(cand)]
+    return dict(fields=fields, probes=probes)
+
+
+def _fielded(ctx):
+    """FieldedOrderedHashWriter/Reader (not used by any shipped codec; not modelled in Lean): generated
+    multi-field files against sorted-dictionary semantics per field."""
+    rng = ctx.rng("hash-fielded")
+    cases = [_fielded_gen(rng) for _ in range(ctx.budget(150, 1500))]
+    for res in ctx.pmap(_fielded_case, cases, chunksize=8):
+        case = res["case"]
+        fields = dict(case["fields"])
+        names = [fn for fn, _ in case["fields"]]
+        brief = {"fields": [(fn, [(k.hex(), len(v)) for k, v in items][:12]) for fn, items in case["fields"]]}
+        ctx.case(("fielded", tuple((fn, tuple(items)) for fn, items in case["fields"])),
+                 nontrivial=len(names) >= 2 and sum(1 for fn in names if fields[fn]) >= 2)
+        ctx.stat("fielded-fields:%d%s" % (len(names), "" if names == sorted(names) else ":unsorted-write-order"))
+        if "crash" in res:
+            ctx.violation("FieldedOrderedHashWriter/Reader:raises-%s" % res["crash"].split(":")[0], brief, "no exception",
+                          res["crash"], "writer or reader raised")
+            continue
+        for code in res["codes"].values():
+            ctx.stat("fielded-indextype:%s" % code)
+        exp_terms = [(fn, k) for fn in sorted(names) for k, _ in fields[fn]]
+        exp_items = [(fn, k, v) for fn in sorted(names) for k, v in fields[fn]]
+        for what, got, exp in (("iter_terms", res["iter_terms"], exp_terms), ("iter_term_items", res["iter_term_items"], exp_items)):
+            if got != exp:
+                # the recorded defect: the data region is walked as one run of records although every field's
+                # position array lies between the fields: the first field comes out right, then garbage or an
+                # exception (or - when the fields were not written in name order - wrong field labels throughout)
+                n1 = len(fields[names[0]])
+                known = isinstance(got, str) or names != sorted(names) or list(got[:n1]) == exp[:n1]
+                sig = "FieldedOrderedHashReader.iter_terms:reads-index-array-as-records" if known \
+                    else "FieldedOrderedHashReader.%s:wrong-result" % what
+                ctx.violation(sig, brief, len(exp), got if isinstance(got, str) else len(got),
+                              "%s does not yield the terms of every field in order" % what)
+        for (fname, k), got in res["look"].items():
+            keys = [kk for kk, _ in fields[fname]]
+            d = dict(fields[fname])
+            i = bisect_left(keys, k)
+            if got["get"] != d.get(k) or got["contains"] != (k in d):
+                lastempty = bool(keys) and k == keys[-1] and d[k] == b"" and got["contains"] is False
+                ctx.violation("FieldedOrderedHashReader.range_for_term:last-term-of-field-with-empty-value-missing"
+                              if lastempty else "FieldedOrderedHashReader.term_get/contains_term",
+                              dict(brief, probe=[fname, k.hex()]), [k in d], [got["contains"]], "fielded lookup")
+            exp = {"closest": keys[i] if i < len(keys) else None, "terms_from": keys[i:], "items_from": fields[fname][i:]}
+            for what in ("closest", "terms_from", "items_from"):
+                if got[what] != exp[what]:
+                    # the recorded defect: the position array is indexed with stride = number of keys instead of
+                    # the item size; harmless exactly when the two coincide
+                    isz = struct.calcsize(res["codes"][fname])
+                    known = len(keys) != isz
+                    sig = "FieldedOrderedHashReader.closest_term:wrong-index-stride" if known \
+                        else "FieldedOrderedHashReader.%s:wrong-result" % {"closest": "closest_term", "terms_from": "terms_from", "items_from": "term_items_from"}[what]
+                    ctx.violation(sig, dict(brief, probe=[fname, k.hex()]),
+                                  repr(exp[what])[:80], repr(got[what])[:80], "closest_term / terms_from / term_items_from")
 
 
 def run(ctx):
